@@ -40,7 +40,7 @@ Section FailedSave.
       + exists s. split; [reflexivity|]. split; [reflexivity|]. left. split; [lia|eauto].
       + assert (exists s1 c1, step s x = Some s1 /\ f_conf s1 = f_conf s /\ f_tmp s1 = Some c1)
           as (s1 & c1 & E1 & C1 & T1).
-        { destruct x as [p|p bs|p|a b|p|p]; try discriminate; destruct p; try discriminate.
+        { destruct x as [p|p bs|p|a b|p|p|p|a b]; try discriminate; destruct p; try discriminate.
           - destruct (write_tmp s c bs Ht) as (s1 & E & C & T). eauto 6.
           - destruct (write_fail_tmp s c Ht) as (s1 & E & C & T). eauto 6. }
         rewrite E1. destruct (IH k s1 c1 T1 Hr) as (s' & R & C & H).
@@ -107,4 +107,78 @@ Proof.
     unfold restart, load_into. rewrite E. reflexivity.
   - exists s'. split; [exact R|]. right. rewrite Hc in E. split; [exact Hk|]. split; [exact E|].
     unfold restart, load_into. rewrite E. apply load_save; assumption.
+Qed.
+
+(* ---------------------------------------------------------------- close() or rename() fails *)
+Lemma fs_run_app a b s : fs_run fs_step (a ++ b) s = match fs_run fs_step a s with Some s' => fs_run fs_step b s' | None => None end.
+Proof. revert s. induction a as [|c a IH]; intros s; cbn [app fs_run]; [reflexivity|]. destruct (fs_step s c); [apply IH|reflexivity]. Qed.
+
+(* every call of these scripts leaves the settings file alone *)
+Definition keeps_conf (c : sys) : bool :=
+  match c with
+  | SOpenTrunc Tmp | SWrite Tmp _ | SWriteFail Tmp | SClose Tmp | SCloseFail Tmp | SUnlink Tmp | SRenameFail Tmp Conf => true
+  | _ => false
+  end.
+Lemma keeps_conf_step d c d' : keeps_conf c = true -> fs_step d c = Some d' -> f_conf d' = f_conf d.
+Proof.
+  destruct c as [p|p bs|p|a b|p|p|p|a b]; try discriminate; try (destruct p; try discriminate);
+    try (destruct a; try discriminate; destruct b; try discriminate); intros _; cbn [fs_step fs_get];
+    try (destruct (f_tmp d); [|discriminate]); intros E; inversion E; reflexivity.
+Qed.
+Lemma keeps_conf_run script : forall d d', forallb keeps_conf script = true -> fs_run fs_step script d = Some d' -> f_conf d' = f_conf d.
+Proof.
+  induction script as [|c r IH]; intros d d' F R; cbn [fs_run forallb] in *; [inversion R; reflexivity|].
+  apply andb_prop in F as [Fc Fr]. destruct (fs_step d c) as [d1|] eqn:E; [|discriminate].
+  rewrite (IH d1 d' Fr R). apply (keeps_conf_step _ _ _ Fc E).
+Qed.
+Lemma forallb_firstn {A} (f : A -> bool) n l : forallb f l = true -> forallb f (firstn n l) = true.
+Proof.
+  revert l. induction n as [|n IH]; intros [|x l] H; cbn [firstn forallb] in *; try reflexivity.
+  apply andb_prop in H as [H1 H2]. rewrite H1, (IH l H2). reflexivity.
+Qed.
+
+(* A save whose close() or rename() fails, cut short after any number k of calls: whenever the calls
+   made so far were possible, the settings file is untouched; and the complete scripts do run
+   through and end with the temporary removed. *)
+Lemma close_rename_failure_keeps_old chunks (k : nat) d d' :
+  (fs_run fs_step (firstn k (script_close_failed chunks)) d = Some d' \/
+   fs_run fs_step (firstn k (script_rename_failed chunks)) d = Some d') ->
+  f_conf d' = f_conf d /\ restart d' = restart d.
+Proof.
+  assert (forallb keeps_conf (script_close_failed chunks) = true /\ forallb keeps_conf (script_rename_failed chunks) = true) as [F1 F2].
+  { unfold script_close_failed, script_rename_failed. cbn [app forallb keeps_conf andb].
+    rewrite !forallb_app. cbn [forallb keeps_conf andb].
+    assert (forallb keeps_conf (map (SWrite Tmp) chunks) = true) as ->
+      by (apply forallb_forall; intros x Hx; apply in_map_iff in Hx as (y & <- & _); reflexivity).
+    split; reflexivity. }
+  intros [R|R].
+  - pose proof (keeps_conf_run _ d d' (forallb_firstn _ k _ F1) R) as E. split; [exact E|apply restart_conf; exact E].
+  - pose proof (keeps_conf_run _ d d' (forallb_firstn _ k _ F2) R) as E. split; [exact E|apply restart_conf; exact E].
+Qed.
+
+Lemma writes_run chunks : forall d c, f_tmp d = Some c ->
+  exists d', fs_run fs_step (map (SWrite Tmp) chunks) d = Some d' /\ exists c', f_tmp d' = Some c'.
+Proof.
+  induction chunks as [|ch r IH]; intros d c H; cbn [map fs_run]; [exists d; eauto|].
+  destruct (fs_write_tmp d c ch H) as (d1 & E & _ & T). rewrite E. apply (IH d1 _ T).
+Qed.
+Lemma close_rename_failure_completes chunks d :
+  (exists d', fs_run fs_step (script_close_failed chunks) d = Some d' /\ f_tmp d' = None /\ f_conf d' = f_conf d) /\
+  (exists d', fs_run fs_step (script_rename_failed chunks) d = Some d' /\ f_tmp d' = None /\ f_conf d' = f_conf d).
+Proof.
+  destruct (fs_open_tmp d) as (d1 & E1 & C1 & T1).
+  destruct (writes_run chunks d1 [] T1) as (d2 & R2 & c2 & T2).
+  assert (forall tail, fs_run fs_step ([SOpenTrunc Tmp] ++ map (SWrite Tmp) chunks ++ tail) d = fs_run fs_step tail d2) as K.
+  { intros tail. cbn [app fs_run]. rewrite E1, fs_run_app, R2. reflexivity. }
+  split.
+  - unfold script_close_failed. rewrite K. repeat (cbn [fs_run fs_step fs_get fs_set f_tmp f_conf]; rewrite ?T2).
+    eexists. split; [reflexivity|]. split; [reflexivity|].
+    pose proof (keeps_conf_run ([SOpenTrunc Tmp] ++ map (SWrite Tmp) chunks) d d2) as Kc. cbn [f_conf fs_set].
+    apply Kc; [|cbn [app fs_run]; rewrite E1; exact R2].
+    cbn [app forallb keeps_conf andb]. apply forallb_forall. intros x Hx. apply in_map_iff in Hx as (y & <- & _). reflexivity.
+  - unfold script_rename_failed. rewrite K. repeat (cbn [fs_run fs_step fs_get fs_set f_tmp f_conf]; rewrite ?T2).
+    eexists. split; [reflexivity|]. split; [reflexivity|].
+    pose proof (keeps_conf_run ([SOpenTrunc Tmp] ++ map (SWrite Tmp) chunks) d d2) as Kc. cbn [f_conf fs_set].
+    apply Kc; [|cbn [app fs_run]; rewrite E1; exact R2].
+    cbn [app forallb keeps_conf andb]. apply forallb_forall. intros x Hx. apply in_map_iff in Hx as (y & <- & _). reflexivity.
 Qed.
